@@ -126,9 +126,12 @@ fn calc_max_day_cost_per_sec(all_deltas: &Vec<TxDelta>) -> MaxDayCosts {
 
     // Go through each day and populate the ACB for every seen security in each MaxSingleDayCosts
     let mut last_acbs = HashMap::<Security, GreaterEqualZeroDecimal>::new();
+    // Fixed order, since the day totals are accumulated in this order.
+    let mut sorted_securities: Vec<&Security> = security_set.iter().collect();
+    sorted_securities.sort();
     for day in sorted_days {
         let max_costs = max_costs_by_day.get_mut(&day).unwrap();
-        for sec in &security_set {
+        for sec in sorted_securities.iter().map(|s| *s) {
             let last_acb = *max_costs
                 .sec_max_cost_for_day
                 .get(sec)
